@@ -145,7 +145,7 @@ impl Prop for C19 {
         1500
     }
     fn cases(tier: Tier) -> u64 {
-        tier.pick(10_000, 150_000)
+        tier.pick(10_000, 100_000)
     }
     fn strategy(_tier: Tier) -> BoxedStrategy<Case> {
         prop_oneof![
